@@ -138,7 +138,54 @@ static std::string cmd_prog(const std::vector<std::string> &args)
   return out;
 }
 
+// asmq <cpu> <hex statement(s)> : two-pass assembly of ".<cpu>\n<statements>\n" at address 0
+//   -> ok <hex bytes low..high (gaps as 00)> | err
+static std::string cmd_asmq(const std::vector<std::string> &args)
+{
+  if (args.size() != 2) { return "bad-op"; }
+  std::string source = "." + args[0] + "\n" + unhex(args[1]) + "\n";
+  AsmContext *ctx = new AsmContext();
+  ctx->quiet_output = 1;
+  tokens_open_buffer(ctx, source.c_str());
+  ctx->tokens.filename = "asmq";
+  ctx->init();
+  int error_flag = ctx->assemble();
+  if (error_flag == 0)
+  {
+    ctx->symbols.lock();
+    ctx->symbols.scope_reset();
+    ctx->pass = 2;
+    ctx->init();
+    error_flag = ctx->assemble();
+  }
+  std::string printed = capture_take();
+  std::string out;
+  if (error_flag != 0 || ctx->error_count != 0 || count_errors(printed) != 0)
+  {
+    out = "err";
+  }
+  else
+  {
+    static const char *hexd = "0123456789abcdef";
+    out = "ok ";
+    uint32_t low = ctx->memory.low_address, high = ctx->memory.high_address;
+    if (low <= high && high - low < 4096)
+    {
+      for (uint32_t a = low; ; a++)
+      {
+        uint8_t b = ctx->memory.read8(a);
+        out.push_back(hexd[b >> 4]); out.push_back(hexd[b & 15]);
+        if (a == high) { break; }
+      }
+    }
+    else { out += "-"; }
+  }
+  delete ctx;
+  return out;
+}
+
 static void register_prog()
 {
   handlers["prog"] = cmd_prog;
+  handlers["asmq"] = cmd_asmq;
 }
